@@ -7,7 +7,10 @@
 //	       computeTagNames / ToGroupID through edge.PointMessage.SetDimensions);
 //	iso  – RELATIONAL runs through real tasks: the same pipeline `from()|groupBy(dims)|NODE@sink()` is run once
 //	       on the full interleaved point list and once per group on that group's points alone; observed =
-//	       every message that reached the sink (group key, time, projection, full content), for each run.
+//	       every message that reached the sink (group key, time, projection, full content, the GroupID it carries),
+//	       for each run. Optionally a stateless STAGE that rebuilds the group identity of every point sits between
+//	       the groupBy and NODE (delete of a group-by tag, a further groupBy, default/eval writing a tag; see `stage`),
+//	       or the grouping is configured on from(); the groups of the solo runs are those in force behind the stage.
 package c06
 
 import (
@@ -116,6 +119,9 @@ func parsePt(t []string) (pt, bool) {
 	return pt{name: name, tags: parseTags(t[2]), fields: parseFields(t[3]), t: ns}, true
 }
 
+// (the last field of a rendered message is the GroupID string the message carries: the driver checks that equal ids
+// <=> equal structured keys among the emitted messages and that the id is ToGroupID of the message's own parts)
+//
 // gkey renders the STRUCTURED identity of a group: by-name flag, the name when grouping by name, and the
 // (dimension, value) pairs in dimension order. It never looks at the GroupID string.
 func gkey(byName bool, name string, dims []string, tags models.Tags) string {
@@ -152,8 +158,8 @@ func renderMsg(m edge.Message) (string, bool) {
 	switch x := m.(type) {
 	case edge.PointMessage:
 		d := x.Dimensions()
-		return fmt.Sprintf("P|%s|%d|%s|%s|%s|%s", gkey(d.ByName, x.Name(), d.TagNames, x.Tags()), x.Time().UnixNano(),
-			proj(x.Fields()), kit.Esc(x.Name()), kit.FieldsStr(x.Fields()), kit.TagsStr(x.Tags())), true
+		return fmt.Sprintf("P|%s|%d|%s|%s|%s|%s|%s", gkey(d.ByName, x.Name(), d.TagNames, x.Tags()), x.Time().UnixNano(),
+			proj(x.Fields()), kit.Esc(x.Name()), kit.FieldsStr(x.Fields()), kit.TagsStr(x.Tags()), kit.Esc(string(x.GroupID()))), true
 	case edge.BufferedBatchMessage:
 		d := x.Dimensions()
 		var ps []string
@@ -171,8 +177,8 @@ func renderMsg(m edge.Message) (string, bool) {
 				pj += "=" + kit.FieldVal(o)
 			}
 		}
-		return fmt.Sprintf("B|%s|%d|%s|%s|%s", gkey(d.ByName, x.Name(), d.TagNames, x.Tags()), x.Time().UnixNano(),
-			pj, kit.Esc(x.Name()), l), true
+		return fmt.Sprintf("B|%s|%d|%s|%s|%s|%s", gkey(d.ByName, x.Name(), d.TagNames, x.Tags()), x.Time().UnixNano(),
+			pj, kit.Esc(x.Name()), l, kit.Esc(string(x.GroupID()))), true
 	}
 	return "", false
 }
@@ -442,10 +448,107 @@ var nodePre = map[string]struct {
 	"alertnested": {"var nl = lambda: count() > %d\n", 1},
 }
 
+// A stateless STAGE between the groupBy and NODE that rebuilds what a point's group id is computed from (7th token of
+// the node line, optional): `-` | `fromgb` (no stage: the grouping is configured on from()) | `del:<tags>` |
+// `gb:<0|1>:<dims>` | `deftag:<k>:<v>` | `evaltag:<k>:<v>` (the value is string("w") = "1" in every generated point).
+type stage struct {
+	kind string
+	list []string
+	flag bool
+	k, v string
+}
+
+func parseStage(tok string) (stage, bool) {
+	f := strings.Split(tok, ":")
+	switch {
+	case tok == "-" || tok == "fromgb":
+		return stage{kind: tok}, true
+	case f[0] == "del" && len(f) == 2:
+		return stage{kind: "del", list: unescList(f[1])}, true
+	case f[0] == "gb" && len(f) == 3:
+		l := unescList(f[2])
+		sort.Strings(l)
+		return stage{kind: "gb", flag: f[1] == "1", list: l}, true
+	case (f[0] == "deftag" || f[0] == "evaltag") && len(f) == 3:
+		k, _ := kit.Unesc(f[1])
+		v, _ := kit.Unesc(f[2])
+		return stage{kind: f[0], k: k, v: v}, true
+	}
+	return stage{}, false
+}
+
+func (st stage) script() string {
+	switch st.kind {
+	case "del":
+		s := "\n  |delete()"
+		for _, t := range st.list {
+			s += "\n    .tag(" + quoteTick(t) + ")"
+		}
+		return s
+	case "gb":
+		s := "\n  |groupBy(" + groupByArgs(false, st.list) + ")"
+		if st.flag {
+			s += "\n    .byMeasurement()"
+		}
+		return s
+	case "deftag":
+		return "\n  |default()\n    .tag(" + quoteTick(st.k) + ", " + quoteTick(st.v) + ")"
+	case "evaltag":
+		return "\n  |eval(lambda: string(\"w\"))\n    .as(" + quoteTick(st.k) + ")\n    .tags(" + quoteTick(st.k) + ")\n    .keep()"
+	}
+	return ""
+}
+
+// after says what the GROUPING of a point is behind the stage, by the property (not by reading the code): delete of a
+// tag removes it from the group-by tags and keeps "by measurement"; a further groupBy names the new group-by tags (the
+// generator never asks for one that would have to drop an earlier by-measurement); default/eval only change values.
+func (st stage) after(byName bool, dims []string, tags models.Tags) (bool, []string, models.Tags) {
+	switch st.kind {
+	case "del":
+		del := map[string]bool{}
+		for _, t := range st.list {
+			del[t] = true
+		}
+		nt := models.Tags{}
+		for k, v := range tags {
+			if !del[k] {
+				nt[k] = v
+			}
+		}
+		var nd []string
+		for _, d := range dims {
+			if !del[d] {
+				nd = append(nd, d)
+			}
+		}
+		return byName, nd, nt
+	case "gb":
+		return byName || st.flag, st.list, tags
+	case "deftag":
+		if tags[st.k] == "" {
+			nt := tags.Copy()
+			nt[st.k] = st.v
+			return byName, dims, nt
+		}
+	case "evaltag":
+		nt := tags.Copy()
+		nt[st.k] = st.v
+		return byName, dims, nt
+	}
+	return byName, dims, tags
+}
+
 func isoScript(t []string) (string, bool) {
-	// node <kind> <p1> <p2> <byName> <dims>
+	// node <kind> <p1> <p2> <byName> <dims> [<stage>]
 	if len(t) < 6 {
 		return "", false
+	}
+	st := stage{kind: "-"}
+	if len(t) >= 7 {
+		var ok bool
+		if st, ok = parseStage(t[6]); !ok {
+			return "", false
+		}
 	}
 	def, ok := nodeDefs[t[1]]
 	if !ok {
@@ -470,12 +573,18 @@ func isoScript(t []string) (string, bool) {
 		fmt.Fprintf(&b, "var a = stream\n  |from()\n    .measurement('cpu')\n    .groupBy(%s)\n    .groupByMeasurement()\n", groupByArgs(false, dims))
 		fmt.Fprintf(&b, "var b = stream\n  |from()\n    .measurement('m')\n    .groupBy(%s)\n", groupByArgs(false, dims))
 		b.WriteString("a\n  |union(b)")
+	} else if st.kind == "fromgb" {
+		fmt.Fprintf(&b, "stream\n  |from()\n    .groupBy(%s)", groupByArgs(false, dims))
+		if t[4] == "1" {
+			b.WriteString("\n    .groupByMeasurement()")
+		}
 	} else {
 		fmt.Fprintf(&b, "stream\n  |from()\n  |groupBy(%s)", groupByArgs(false, dims))
 		if t[4] == "1" {
 			b.WriteString("\n    .byMeasurement()")
 		}
 	}
+	b.WriteString(st.script())
 	b.WriteString("\n  " + fmt.Sprintf(def.script, args...))
 	if def.batch {
 		b.WriteString("\n  @bsink()\n")
@@ -552,12 +661,17 @@ func execIso(lines []string) []string {
 	byNameOf := func(name string) bool { return cfg[4] == "1" || (cfg[4] == "2" && name == "cpu") }
 	dims := unescList(cfg[5])
 	sort.Strings(dims)
+	st := stage{kind: "-"}
+	if len(cfg) >= 7 {
+		st, _ = parseStage(cfg[6])
+	}
 	out = append(out, "full => "+renderRun(script, pts))
-	// the groups of the input, in order of first appearance, by STRUCTURED key
+	// the groups of the input AS THEY REACH NODE (behind the stage), in order of first appearance, by STRUCTURED key
 	var keys []string
 	byKey := map[string][]pt{}
 	for _, p := range pts {
-		k := gkey(byNameOf(p.name), p.name, dims, p.tags)
+		fb, fd, ft := st.after(byNameOf(p.name), dims, p.tags)
+		k := gkey(fb, p.name, fd, ft)
 		if _, ok := byKey[k]; !ok {
 			keys = append(keys, k)
 		}
